@@ -62,10 +62,6 @@ def run(chk):
                           {'op': r.op, 'ids': [r.id], 'record': r.line, 'model': m} if impl != str(ref_sign) else None, key=r.family)
         if len(chk.samples) < 4 and orient != 0 and r.family.startswith(('cospherical', 'rand52')):
             chk.sample({'op': 'insphere', 'family': r.family, 'points': r.inp, 'impl': impl, 'model_sign': ref_sign, 'det': m[2], 'orient': m[3]})
-    if not gen_parsed and not chk.violations:
-        chk.soft.append('InSphere fragment unparsed; implementation-vs-Ref correspondence agrees on all %d records' % chk.evaluations)
-        # softening rule of DESIGN §5: drop the Gen obligations only
-        chk.obligations = [o for o in chk.obligations if o['module'] != 'MVoro.Obl.InSphere']
 
     # ---- second half: the map from positions to the grid
     rec_f = os.path.join(chk.wdir(), 'iloc.rec')
